@@ -24,6 +24,7 @@ var c13Surround = []struct {
 	{"method-arg", "F.Add(F.Heavy(F.I), 1) == %c + 1", ""},
 	{"negated", "!(F.Heavy(F.I) != %c)", ""},
 	{"action-rhs", "F.B", "F.In = F.Heavy(F.I)"},
+	{"action-statement", "F.B", "F.Heavy(F.I)"},
 }
 
 var c13Inval = []struct {
@@ -387,6 +388,6 @@ func C13(rep *ev.Reporter, tier string) {
 		}
 	}
 	RunFamily(rep, func(emit func(Case)) { gen(withHist(emit)); genB(withHist(emit)); genC(emit); genD(withHist(emit)) }, 1500, bud, judgeC13)
-	rep.Coverage["rule"] = "programs in which the counted pure method F.Heavy(F.I) occurs in k=1..3 rules in each of 8 surroundings (alone, left/right of &&, right of ||, inside arithmetic, as a method argument, under negation, in an action right-hand side) together with 0..2 of 6 writer rules (assignment to the argument variable, assignment to a prefix-similar variable, external change + Forget(variable), Forget(call text), Changed(variable), assignment on another object), 2 constants, 2 fact states, every rule order at every cycle; a second family uses the counted call F.Iheavy(F.I2), whose TEXT contains the variable name F.I without depending on it, with writers Changed(F.I) / Forget(F.I) / assignment to F.I (none of which concerns the call) and assignment / Forget of F.I2 (which do); a third family counts a field ACCESSOR instead of a method: leaf reads of F.P.V observed through a counting data context / value node wrapper, with writers assigning the leaf, a sibling field, another field, swapping the parent pointer, Forget/Changed naming the leaf. Oracle: between two invalidation events derived from the validated trace (firing of a rule that assigns F.I or calls Forget/Changed naming F.I or the call) the call counter advances by at most 1. Non-trivial: an epoch in which the call was read >=2 times and evaluated once."
+	rep.Coverage["rule"] = "programs in which the counted pure method F.Heavy(F.I) occurs in k=1..3 rules in each of 9 surroundings (alone, left/right of &&, right of ||, inside arithmetic, as a method argument, under negation, in an action right-hand side, as a bare call statement of an action list) together with 0..2 of 6 writer rules (assignment to the argument variable, assignment to a prefix-similar variable, external change + Forget(variable), Forget(call text), Changed(variable), assignment on another object), 2 constants, 2 fact states, every rule order at every cycle; a second family uses the counted call F.Iheavy(F.I2), whose TEXT contains the variable name F.I without depending on it, with writers Changed(F.I) / Forget(F.I) / assignment to F.I (none of which concerns the call) and assignment / Forget of F.I2 (which do); a third family counts a field ACCESSOR instead of a method: leaf reads of F.P.V observed through a counting data context / value node wrapper, with writers assigning the leaf, a sibling field, another field, swapping the parent pointer, Forget/Changed naming the leaf. Oracle: between two invalidation events derived from the validated trace (firing of a rule that assigns F.I or calls Forget/Changed naming F.I or the call) the call counter advances by at most 1. Non-trivial: an epoch in which the call was read >=2 times and evaluated once."
 	rep.Assumptions = append(rep.Assumptions, "invalidating rules contain no counted call themselves, so the epoch boundary (their ExecuteRuleEntry) is unambiguous", "the run cap per (program, world) bounds 4-rule programs; capped explorations are reported", "accessor family: invalidating rules do not read the counted leaf themselves; the leaf is never the target of a compound assignment")
 }
